@@ -430,15 +430,28 @@ def c11(res, rng, tier, replay=None):
         for mid in ['{(?-i)q1}', '<(?-i)rc:2>', '(?-i)q', '{(?-i)a,(?-i)a}', '{x}', '<y:1>']:
             exprs.append(pre + mid)
             exprs.append(pre + mid + '/z')
+    # branches whose texts are related without being equal: one is the other cut at a component boundary, a fragment more,
+    # the same fragments with another kind (`/` as text of a class) - equality of texts must compare every fragment
+    for a_, b_ in [('a', 'a/b'), ('a/b', 'a'), ('a', 'a/b/c'), ('a/', 'a/b'), ('a/b', 'a/b/'), ('x/y', 'x/y/z'), ('a', 'a/'), ('a/b', 'a/c'), ('ab', 'a/b'),
+                   ('a', 'a[b]'), ('a[b]', 'a'), ('é', 'é/é')]:
+        for ctx in ['{%s,%s}', 'p/{%s,%s}', '{%s,%s}/q', '{%s,%s,%s}', '<{%s,%s}:1>']:
+            exprs.append(ctx % ((a_, b_, a_) if ctx.count('%s') == 3 else (a_, b_)))
     items = stage_globs(exprs)
     note_shapes(res, items)
     built = stage_match(items, rng)
     tie_fields(res, items, ['text'], 'C11 text()')
+    # combinators of such pairs: any([a, a/b])
+    acmds = ['any %s %s' % (hx(a_), hx(b_)) for a_, b_ in [('a', 'a/b'), ('a/b', 'a'), ('x/y', 'x/y/z'), ('a', 'a'), ('a/', 'a/b')]]
+    for c_, ai, am in zip(acmds, W.run_impl(acmds), W.run_model(acmds)):
+        res.evaluations += 1
+        if W.fields(ai)[0] == 'ok' and W.fields(ai)[1].get('text') != W.fields(am)[1].get('text'):
+            res.tie_fail('C11 text() of a combinator differs', {'cmd': c_, 'impl': W.fields(ai)[1].get('text'), 'model': W.fields(am)[1].get('text')})
     # add the reported text and its case variants as paths
     extra = [it for it in built if it.if_.get('text', 'V').startswith('I')]
     for it in extra:
         txt = W.unhx(it.if_['text'][1:])
-        it.paths = [txt] + [v for v in (txt.swapcase(), txt.upper(), txt.lower()) if v != txt]
+        sampled = [p_ for p_ in (it.paths or []) if p_ != txt]
+        it.paths = [txt] + [v for v in (txt.swapcase(), txt.upper(), txt.lower()) if v != txt] + sampled[:12]
     outs = W.run_impl(['mm %s %s' % (hx(it.e), ' '.join(hx(p) for p in it.paths)) for it in extra])
     for it, o in zip(extra, outs):
         if o in ('err', 'panic'):
